@@ -332,6 +332,8 @@ class BackupNode(Entity):
         self._replications_applied = 0
         self._backup_reads = 0
         self._last_applied_seq = 0
+        # Highest sequence number accepted per key (replication messages can be reordered)
+        self._newest_seq: dict[str, int] = {}
 
     def downstream_entities(self) -> list[Entity]:
         return [self._primary]
@@ -375,11 +377,17 @@ class BackupNode(Entity):
         seq = metadata.get("seq", 0)
         ack_future: SimFuture | None = metadata.get("ack_future")
 
-        # Apply locally
-        yield from self._store.put(key, value)
+        if seq < self._newest_seq.get(key, 0):
+            # Overtaken by a later write to this key: spend the write latency (so the
+            # ack is not sent before the newer value is stored) but keep the newer value
+            yield self._store.write_latency
+        else:
+            # Apply locally
+            self._newest_seq[key] = seq
+            yield from self._store.put(key, value)
+            self._replications_applied += 1
 
-        self._replications_applied += 1
-        self._last_applied_seq = seq
+        self._last_applied_seq = max(self._last_applied_seq, seq)
 
         # Resolve ack future if present (for SEMI_SYNC/SYNC)
         if ack_future is not None:
